@@ -34,7 +34,7 @@ func cellSource(cl cell) string {
 	for i, t := range cl.ptypes {
 		ps = append(ps, ddp.Param{Name: pnames[i], Type: tName[t]})
 	}
-	return ddp.Func("c01_"+cl.name, ps, tRet[cl.ret], cl.pre+"Gib "+cl.expr+" zurück.")
+	return cl.top + ddp.Func("c01_"+cl.name, ps, tRet[cl.ret], cl.pre+"Gib "+cl.expr+" zurück.")
 }
 
 // Run executes the C01 check.
